@@ -341,6 +341,35 @@ def o_search_keys(src, patterns):
     return None
 
 
+@C.oracle('cyclic')
+def o_cyclic(src, how):
+    """containers that are reachable from their own entries (a child carrying a private back-link to its parent, a list that holds the
+    container holding it): deepcopy and a pickle round-trip (every protocol) give an equal object with the same entries in the same
+    order and the same shape (the link of the copy leads to the copy)"""
+    c = Container(a=1, b=b'x')
+    c.child = Container(v=2, w=[3])
+    c.child._ = c
+    c.z = 9
+    l = ListContainer([1])
+    h = Container(first=0, items_=l, last=2)
+    l.append(h)
+    f = {'deepcopy': copy.deepcopy}.get(how) or (lambda x: pickle.loads(pickle.dumps(x, int(how[6:]))))
+    for name, obj in (('a child linked back to its parent', c), ('a list that holds its holder', h)):
+        try:
+            r = f(obj)
+        except Exception as e:
+            return '%s of %s raised %s' % (how, name, type(e).__name__)
+        if type(r) is not Container or list(r.keys()) != list(obj.keys()):
+            return '%s of %s has entries %r, the original %r' % (how, name, list(r.keys()), list(obj.keys()))
+        if obj is c:
+            if not (r == c and c == r) or r.child._ is not r or list(r.child.keys()) != ['v', 'w', '_'] or r.child.w != [3] or r.z != 9 or r['a'] != r.a:
+                return '%s of %s: equal %r, link leads to the copy %r, child entries %r' % (how, name, r == c, r.child._ is r, list(r.child.keys()))
+        else:
+            if type(r.items_) is not ListContainer or r.items_[0] != 1 or r.items_[1] is not r or (r.first, r.last) != (0, 2):
+                return '%s of %s: list %r, second element is the copy %r' % (how, name, type(r.items_).__name__, r.items_[1] is r)
+    return None
+
+
 @C.oracle('search')
 def o_search(src, tree, patterns):
     c = I.to_container(tree)
@@ -444,6 +473,13 @@ def run(tier, seed):
                 'ListContainer([Container([(1, 1), ("a", 2)]), Container([("a", 3), (2.5, 4), ("ab", 5)]), [Container([(b"a", 6), ("a", 7)])]])',
                 'Container([("x", ListContainer([Container([(9, 9), ("ay", 1)]), 5])), (3, Container(a=4)), ("az", 2)])']:
         acc.check('search_keys', src, patterns=['a', 'ab', '.', 'z', 'a.', '^a$', ''])
+    # entries at depth >= 1 whose keys are the names of the containers' own methods and attributes (a Container is its own __dict__)
+    for nm in sorted(n for n in set(dir(Container)) | set(dir(ListContainer)) if not n.startswith('__')):
+        for src in ['Container(inner=Container(%s=1, x=42), x=44)' % nm, 'ListContainer([Container(x=1), Container(%s=0, x=2)])' % nm,
+                    'Container(a=ListContainer([Container(%s=5, xa=6)]), xb=Container(%s=7), xc=8)' % (nm, nm)]:
+            acc.check('search_keys', src, patterns=['x', nm, '^x', '.'])
+    for how in ['deepcopy'] + ['pickle%d' % k for k in range(pickle.HIGHEST_PROTOCOL + 1)]:
+        acc.check('cyclic', 'Container', how=how)
     # hex helpers
     lens = list(range(0, 40)) + [63, 64, 65, 255, 256, 257, 1000]
     datas = [G.rand_bytes(rng, k) for k in lens] + [bytes(range(256)), b' ' * 33, b'\n' * 5, b'""")' * 3]
